@@ -30,40 +30,40 @@ Proof. intros. apply (build_log_ext _ _ gen_is_expected). Qed.
 
 (** * Exactly once, inner before outer *)
 Lemma once_inner_first : forall c mc ms a, In (mc, ms) notif_pairs ->
-  call (coll_obj G c) mc a = ((root_id c, mc, a) :: ents ms a (coll_recv false ms c), RUnit).
+  call (coll_obj G c) mc a = (root_ents c mc a ++ ents ms a (coll_recv false ms c), RUnit).
 Proof. intros. rewrite gcall. apply once_inner_first_v; assumption. Qed.
 
 Lemma once_new_span : forall c a,
   call (coll_obj G c) new_span a =
-    ((root_id c, new_span, a) :: ents on_new_span (a_cs a, a_id a, 0) (coll_recv false on_new_span c), RId (a_id a)).
+    (root_ents c new_span a ++ ents on_new_span (a_cs a, a_id a, 0) (coll_recv false on_new_span c), RId (a_id a)).
 Proof. intros. rewrite gcall. apply new_span_v. Qed.
 
 Lemma once_close : forall c a,
   call (coll_obj G c) try_close a =
     if b_close (root_beh c) (a_id a)
-    then ((root_id c, try_close, a) :: ents on_close a (coll_recv false on_close c), RBool true)
-    else ([(root_id c, try_close, a)], RBool false).
+    then (root_ents c try_close a ++ ents on_close a (coll_recv false on_close c), RBool true)
+    else (root_ents c try_close a, RBool false).
 Proof. intros. rewrite gcall. apply try_close_v. Qed.
 
 Lemma once_id_change : forall c a,
   call (coll_obj G c) clone_span a =
-    let nw := b_clone (root_beh c) (a_id a) in
-    ((root_id c, clone_span, a) ::
+    let nw := r_clone (root_beh c) (a_id a) in
+    (root_ents c clone_span a ++
        (if nw =? a_id a then [] else ents on_id_change (a_cs a, a_id a, nw) (coll_recv false on_id_change c)), RId nw).
 Proof. intros. rewrite gcall. apply clone_span_v. Qed.
 
 Lemma drop_span_is_try_close : forall c a,
   call (coll_obj G c) drop_span a =
-    if coll_has_layer c then (fst (call (coll_obj G c) try_close a), RUnit) else ([(root_id c, drop_span, a)], RUnit).
+    if coll_has_layer c then (fst (call (coll_obj G c) try_close a), RUnit) else (root_ents c drop_span a, RUnit).
 Proof. intros. rewrite !gcall. apply drop_span_v. Qed.
 
-Lemma current_span_root_only : forall c a, call (coll_obj G c) current_span a = ([(root_id c, current_span, a)], RUnit).
+Lemma current_span_root_only : forall c a, call (coll_obj G c) current_span a = (root_ents c current_span a, RUnit).
 Proof. intros. rewrite gcall. apply current_span_v. Qed.
 
 (** Dispatcher registration: every layer exactly once, the root first; inner before outer wherever no `and_then` pair is
     involved (and everywhere once F18 is repaired). *)
 Lemma register_dispatch_once : forall c a, exists ids,
-  call (coll_obj G c) on_register_dispatch a = ((root_id c, on_register_dispatch, a) :: ents on_register_dispatch a ids, RUnit) /\
+  call (coll_obj G c) on_register_dispatch a = (root_ents c on_register_dispatch a ++ ents on_register_dispatch a ids, RUnit) /\
   Permutation ids (coll_recv false on_register_dispatch c).
 Proof.
   intros c a. exists (coll_recv (negb V) on_register_dispatch c). split.
@@ -73,7 +73,7 @@ Qed.
 
 Lemma register_dispatch_inner_first : forall c a, f18_fixed G = true \/ pair_free c = true ->
   call (coll_obj G c) on_register_dispatch a =
-    ((root_id c, on_register_dispatch, a) :: ents on_register_dispatch a (coll_recv false on_register_dispatch c), RUnit).
+    (root_ents c on_register_dispatch a ++ ents on_register_dispatch a (coll_recv false on_register_dispatch c), RUnit).
 Proof.
   intros c a H. rewrite gcall, register_dispatch_v. destruct H as [H|H].
   - fold V in H. rewrite H. reflexivity.
@@ -91,7 +91,7 @@ Lemma F18_refuted : f18_fixed G = false ->
   let c := CLayered (SPair (SLeaf 2 unhinted) (SLeaf 1 unhinted)) (CLeaf 0 unhinted) in
   pair_free c = false /\
   fst (call (coll_obj G c) on_register_dispatch arg0) <>
-    (root_id c, on_register_dispatch, arg0) :: ents on_register_dispatch arg0 (coll_recv false on_register_dispatch c).
+    root_ents c on_register_dispatch arg0 ++ ents on_register_dispatch arg0 (coll_recv false on_register_dispatch c).
 Proof.
   intros H c. split; [reflexivity|]. rewrite gcall. fold V in H. rewrite H. vm_compute. discriminate.
 Qed.
@@ -101,9 +101,32 @@ Lemma query_outer_first_until_veto : forall c q a,
   call (coll_obj G c) (q_meth q) a = q_out q a (until_veto (q_ans q a) (coll_ask c)).
 Proof. intros. rewrite gcall. apply query_outer_first_until_veto_v. Qed.
 
-Lemma register_callsite_outer_first_until_never : forall c a, a = (a_cs a, 0, 0) -> linear c = true ->
+(** `register_callsite` on every stack: the tree walk [rc_coll] (Spec.v); never twice, never out of order; the plain list walk on linear stacks. *)
+Lemma register_callsite_outer_first_until_never : forall c a,
+  call (coll_obj G c) register_callsite a = rc_out (rc_coll a c) /\
+  sublist (ids (fst (rc_coll a c))) (ask_ids (coll_ask c)).
+Proof. intros. split; [rewrite gcall; apply register_callsite_v|apply rc_coll_sublist]. Qed.
+
+Lemma register_callsite_linear : forall c a, a = (a_cs a, 0, 0) -> linear c = true ->
   call (coll_obj G c) register_callsite a = rc_out (rc_until (a_cs a) (coll_ask c)).
-Proof. intros. rewrite gcall. apply register_callsite_linear_v; assumption. Qed.
+Proof. intros c a Ha Hl. rewrite gcall, register_callsite_v, (rc_coll_linear a c Ha Hl). reflexivity. Qed.
+
+(** What the walk skips and what it does not: after a `never` from the outer side nothing of the inner side is asked; a Vec
+    asks every element; otherwise both sides are asked, outer first. *)
+Lemma rc_skips_after_never :
+  (forall a s c, snd (rc_sub a s) = INever -> rc_coll a (CLayered s c) = (fst (rc_sub a s), INever)) /\
+  (forall a o i, snd (rc_sub a o) = INever -> rc_sub a (SPair o i) = (fst (rc_sub a o), INever)) /\
+  (forall a s c, snd (rc_sub a s) <> INever -> fst (rc_coll a (CLayered s c)) = fst (rc_sub a s) ++ fst (rc_coll a c)) /\
+  (forall a o i, snd (rc_sub a o) <> INever -> fst (rc_sub a (SPair o i)) = fst (rc_sub a o) ++ fst (rc_sub a i)) /\
+  (forall a xs, fst (rc_sub a (SVec xs)) = List.concat (map (fun x => fst (rc_sub a x)) xs)).
+Proof.
+  repeat apply conj; intros; cbn [rc_coll rc_sub]; unfold rc_pick.
+  - rewrite H. reflexivity.
+  - rewrite H. reflexivity.
+  - destruct (snd (rc_sub a s)); try congruence; reflexivity.
+  - destruct (snd (rc_sub a o)); try congruence; reflexivity.
+  - cbn [fst]. rewrite map_map. reflexivity.
+Qed.
 
 Lemma dispatch_event : forall c a, dispatch_sem G (call (coll_obj G c)) event a = (expected_event c a, RUnit).
 Proof. intros. rewrite gdisp. apply dispatch_event_v. Qed.
@@ -141,9 +164,17 @@ Lemma filter_wrappers_transparent : forall K ws f ops,
   run_case G (cplug K (SProbe (fwrap_nest ws f))) ops = run_case G (cplug K (SProbe f)) ops.
 Proof. intros. rewrite !grun. apply filter_wrappers_transparent_v. Qed.
 
-Lemma collector_wrappers_transparent : forall K ws c ops,
+Lemma collector_wrappers_transparent : forall K ws c ops, flags_of_root c = noflags ->
   run_case G (kplug K (cwrap_nest ws c)) ops = run_case G (kplug K c) ops.
-Proof. intros. rewrite !grun. apply collector_wrappers_transparent_v. Qed.
+Proof. intros. rewrite !grun. apply collector_wrappers_transparent_v; assumption. Qed.
+
+(** The one exception is by design: the `Layered` directly above compares its inner collector's TYPE with `Registry`, so
+    `Box::new(registry()).with(None)` has no hint where `registry().with(None)` reports OFF. *)
+Lemma boxed_registry_differs :
+  let reg := CLeaf 0 (beh_registry (fun _ => true)) in
+  flags_of_root reg <> noflags /\
+  run_case G (kplug (KUnder SNone KHole) (cwrap_nest [CwBox] reg)) [OHint] <> run_case G (kplug (KUnder SNone KHole) reg) [OHint].
+Proof. cbv zeta. split; [discriminate|rewrite !grun; destruct V; vm_compute; discriminate]. Qed.
 
 (** * Unwinding: ops executed in a Drop impl while a panic propagates *)
 Lemma gen_order_lock_first : gen_order = LockFirst.
@@ -154,6 +185,10 @@ Proof.
   intros c ops k. rewrite gen_order_lock_first. unfold run_case_u, run_case, unwind_tables.
   rewrite <- map_app, firstn_skipn. reflexivity.
 Qed.
+
+Lemma collector_wrappers_transparent_while_unwinding : forall K ws c ops k, flags_of_root c = noflags ->
+  run_case_u G gen_order (kplug K (cwrap_nest ws c)) ops k = run_case_u G gen_order (kplug K c) ops k.
+Proof. intros. rewrite !unwinding_changes_nothing. apply collector_wrappers_transparent; assumption. Qed.
 
 Lemma wrappers_transparent_while_unwinding : forall K ps x ops k,
   (existsb uses_id ps = true -> is_none (sub_obj G x) = false) ->
